@@ -360,7 +360,7 @@ def gen_case(rng, tier):
                         "keep": rng.random() < 0.5, "discard": rng.random() < 0.4,
                         "defaults": rng.random() < 0.15}
             b = gen_bqm_base(rng)
-            while b["base"] in ('identity', 'null'):
+            while b["base"] == 'identity':      # would need initial states over the auxiliary variables
                 b = gen_bqm_base(rng)
             c.update(b)
         layers = gen_poly_layers(rng, poly, hoc)
@@ -420,7 +420,7 @@ def gen_case(rng, tier):
             if vt == 'INTEGER':
                 lb = rng.choice([0, 0, -3, -1, 1, 2])
                 ub = lb + rng.choice([0, 1, 2, 3])
-                if rng.random() < 0.12:
+                if rng.random() < 0.2:
                     # non-integral bounds are accepted by dimod as long as an integer lies between them
                     lb = rng.choice([0.5, 1.5, -0.5, -2.5, -3.5, 0.25])
                     ub = lb + rng.choice([1, 1.5, 2, 2.5])
@@ -746,7 +746,13 @@ def run_poly(c):
         ss = call()
     except Exception as e:
         feats["raised"] = type(e).__name__ + ": " + str(e)[:80]
-        return {"coq": None, "features": feats, "nontrivial": False, "py_fail": None,
+        # PolyFixedVariableComposite whose child returned no rows while some variable is left unfixed
+        for i, l in enumerate(c["layers"]):
+            if l["t"] == 'fixed' and l.get("fixed") and recs[i + 1].calls and not recs[i + 1].calls[-1][1]["rows"] \
+                    and isinstance(e, KeyError):
+                feats["fixed_over_empty_child"] = True
+        return {"coq": None, "features": feats, "nontrivial": False,
+                "py_fail": "a valid stack raised instead of returning a sample set: " + feats["raised"],
                 "observed": {"raised": feats["raised"]}}
     final = snap(ss)
     py_fail = None
@@ -895,7 +901,7 @@ def run_cqm(c):
         py_fail = "vartype is not INTEGER"
     # the problem as the CQM object reports it
     vt_terms = []
-    frac = trunc_bad = False
+    frac = False
     for v in cqm.variables:
         vt = cqm.vartype(v).name
         if vt == 'INTEGER':
@@ -905,8 +911,6 @@ def run_cqm(c):
             else:
                 d = f"(DIntQ {cq(lb)} {cq(ub)})"
                 frac = True
-                if int(lb) < lb or int(ub + 1) - 1 > ub:
-                    trunc_bad = True
         else:
             d = dom_term(vt)
         vt_terms.append(cpair(cnat(T.idx(v)), d))
@@ -924,7 +928,7 @@ def run_cqm(c):
            f"{res_term(T, final)} {feas})")
     feats = {"kind": "cqm", "empty_problem": len(cqm.variables) == 0, "discrete": len(groups),
              "spin": any(v[1] == 'SPIN' for v in vars_), "neg_lb": any(v[1] == 'INTEGER' and v[2] < 0 for v in vars_),
-             "frac_bounds": frac, "int_trunc_bound": trunc_bad}
+             "frac_bounds": frac}
     return {"coq": coq, "py_fail": py_fail, "features": feats, "nontrivial": bool(labels),
             "observed": {"final": str(final)[:2000]}}
 
